@@ -645,8 +645,9 @@ def run_machine(machine, msgs, junk, chunks):
     return []
 
 
-def run_tnet_from(msgs, junk, chunks, nones):
-    """Real tnet_from over a scripted recv.  Expect exactly the messages (then, for junk, anything -- even an exception)."""
+def run_tnet_from(msgs, junk, chunks, nones, ignore=None):
+    """Real tnet_from over a scripted recv.  Expect exactly the messages (then, for junk, anything -- even an exception).
+    ignore: the documented `ignore` symbols (skipped BETWEEN messages, e.g. the newline a line-oriented peer sends after each)."""
     import cpppo
     from cpppo.server import tnet
     script = []
@@ -665,7 +666,7 @@ def run_tnet_from(msgs, junk, chunks, nones):
     tnet.network.recv = fake_recv
     try:
         try:
-            for m in tnet.tnet_from(None, ("fake", 0), source=source):
+            for m in tnet.tnet_from(None, ("fake", 0), source=source, ignore=ignore):
                 out.append(m)
                 if len(out) > len(msgs) + 4:
                     break
@@ -673,7 +674,7 @@ def run_tnet_from(msgs, junk, chunks, nones):
             exc = e
     finally:
         tnet.network.recv = orig
-    where = "tnet_from over recv script %r" % (chunks,)
+    where = "tnet_from%s over recv script %r" % ("" if ignore is None else "(ignore=%r)" % ignore, chunks)
     if len(out) < len(msgs) or not all(same(a, b) for a, b in zip(msgs, out)):
         return [("tnet_from-messages-differ", "%s yielded %r%s, expected %r"
                  % (where, out, (" then raised %r" % exc) if exc else "", msgs))]
@@ -683,7 +684,7 @@ def run_tnet_from(msgs, junk, chunks, nones):
         if len(out) != len(msgs):
             return [("tnet_from-extra-message", "%s yielded %r, expected %r" % (where, out, msgs))]
         want = sum(len(ref_dump(v)) for v in msgs)
-        if source.sent != want:
+        if source.sent != want and ignore is None:
             return [("tnet_from-consumed", "%s consumed %d symbols, the messages are %d long" % (where, source.sent, want))]
     return []
 
@@ -804,6 +805,23 @@ def shard_C(acc, pairs, tier):
                     acc.count("C_ok")
                 for kind, msg in bad:
                     acc.violation(kind, mcase("tnet_from", msgs, junk, chunks, nones), msg)
+        if j >= 0:
+            # line-oriented peer: a newline after every message, tnet_from told to ignore newlines between messages (as the
+            # tnet server does); payloads may themselves contain newlines; every chunking of the separated stream
+            sep = b"\n"
+            stream = b"".join(ref_dump(x) + sep for x in msgs)
+            for flabel, cuts in feedings(stream, len(ref_dump(v)), "quick"):
+                chunks = split_chunks(stream, cuts)
+                acc.ev()
+                acc.ntc()
+                bad = run_tnet_from(msgs, b"", chunks, False, ignore=sep)
+                acc.outcome("C ignore-separated")
+                if not bad:
+                    acc.count("C_ok")
+                for kind, msg in bad:
+                    case = mcase("tnet_from", msgs, b"", chunks, False)
+                    case["ignore"] = sep
+                    acc.violation("ignore:" + kind, case, msg)
 
 
 # ------------------------------------------------------------------------------------------------
@@ -955,5 +973,5 @@ def replay(case):
                 return []       # the history passed during exploration: let the CLI report nondeterminism
         return [m for _, m in run_machine(machine, msgs, junk, chunks)]
     if op == "tnet_from":
-        return [m for _, m in run_tnet_from(msgs, junk, chunks, bool(case.get("nones")))]
+        return [m for _, m in run_tnet_from(msgs, junk, chunks, bool(case.get("nones")), ignore=case.get("ignore"))]
     raise ValueError(op)
